@@ -54,3 +54,25 @@ Fixpoint replay (al : algo) (st : state) (os : list obs) : bool :=
 (* (algorithm, programs, observed run) *)
 Definition chk_rw (c : algo * list (list acq) * list obs) : bool :=
   let '(al, progs, os) := c in replay al (init progs) os.
+
+(* the same runs shared as a tree: every node is one executed transition, with
+   the runnable set observed after it; children are the transitions explored
+   from the state it leads to *)
+Inductive otree := ONode (o : obs) (after : list nat) (kids : list otree).
+
+Fixpoint replay_tree (al : algo) (st : state) (tr : otree) : bool :=
+  match tr with
+  | ONode o after kids =>
+      eqb_list Nat.eqb (enabled_list st) (o_enabled o)
+      && match step al st (o_label o) with
+         | None => false
+         | Some (st1, ev) =>
+             eqb_list event_eqb ev (o_events o) && view_ok st1 (o_view o)
+             && eqb_list Nat.eqb (enabled_list st1) after
+             && (fix all (ks : list otree) : bool :=
+                   match ks with [] => true | k :: r => replay_tree al st1 k && all r end) kids
+         end
+  end.
+
+Definition chk_rw_tree (c : algo * list (list acq) * list otree) : bool :=
+  let '(al, progs, trs) := c in forallb (replay_tree al (init progs)) trs.
